@@ -9,11 +9,27 @@ import (
 // InitGenesis initializes the evidence module's state from a provided genesis
 // state.
 func InitGenesis(ctx sdk.Context, k keeper.Keeper, gs *types.GenesisState) {
+	// the id counters are not part of the genesis state: continue after the highest imported id, so
+	// that the next pool / undelegation does not reuse (and overwrite) an imported one
+	lastPoolId := uint64(0)
 	for _, pool := range gs.Pools {
 		k.SetStakingPool(ctx, pool)
+		if pool.Id > lastPoolId {
+			lastPoolId = pool.Id
+		}
 	}
+	if lastPoolId > 0 {
+		k.SetLastPoolId(ctx, lastPoolId)
+	}
+	lastUndelegationId := uint64(0)
 	for _, undelegation := range gs.Undelegations {
 		k.SetUndelegation(ctx, undelegation)
+		if undelegation.Id > lastUndelegationId {
+			lastUndelegationId = undelegation.Id
+		}
+	}
+	if lastUndelegationId > 0 {
+		k.SetLastUndelegationId(ctx, lastUndelegationId)
 	}
 	for _, reward := range gs.Rewards {
 		delegator, err := sdk.AccAddressFromBech32(reward.Delegator)
